@@ -294,18 +294,41 @@ def _matrix_of(inp):
     compute_affinity is a *monitored contract* here, not the oracle: `_holds_independent` compares every entry with
     the affinity stated independently of the code (harness/c07_oracle.py)"""
     k = _core_key(inp)
+    if k in _LIB_OVERRIDE:
+        return _LIB_OVERRIDE[k]
     if k not in _CACHE:
         if len(_CACHE) > 4096:
             _CACHE.clear()
-        from soundevent.evaluation import compute_affinity
-        src, tgt = _geoms(inp)
-        m = np.zeros((len(src), len(tgt)))
-        for i, a in enumerate(src):
-            for j, b in enumerate(tgt):
-                m[i, j] = compute_affinity(a, b, time_buffer=_f(inp["tb"]), freq_buffer=_f(inp["fb"]))
-        _CACHE[k] = {"n": len(src), "m": len(tgt), "matrix": [[rat(float(x)) for x in row] for row in m],
-                     "assigned": _solve(m)}
+        _CACHE[k] = _observe_lib(inp)
     return _CACHE[k]
+
+
+_LIB_OVERRIDE = {}      # the library's matrix as observed in a fresh process (pristine-process probe), while re-judging
+
+
+def _observe_lib(inp):
+    from soundevent.evaluation import compute_affinity
+    src, tgt = _geoms(inp)
+    m = np.zeros((len(src), len(tgt)))
+    for i, a in enumerate(src):
+        for j, b in enumerate(tgt):
+            m[i, j] = compute_affinity(a, b, time_buffer=_f(inp["tb"]), freq_buffer=_f(inp["fb"]))
+    return {"n": len(src), "m": len(tgt), "matrix": [[rat(float(x)) for x in row] for row in m], "assigned": _solve(m)}
+
+
+def _observe(inp):
+    """one call as the pristine-process probe observes it: the output of match_geometries, then the library's own
+    affinity matrix for the same arguments"""
+    from ..core import canon_exc
+    try:
+        out = _impl_match(inp)
+    except Exception as e:  # noqa: BLE001 - an exception of the real code is an observation
+        out = canon_exc(e)
+    try:
+        out["lib"] = _observe_lib(inp)
+    except Exception as e:  # noqa: BLE001
+        out["lib"] = canon_exc(e)
+    return out
 
 
 def _geoms_args(inp):
@@ -714,7 +737,8 @@ def _refine(ctx, x, io_bad, msg):
     alone = F.run({"seq": [{"inp": x}]})
     if alone is None:
         return msg
-    if _plain(alone[0]) == _plain(io_bad):
+    here = dict(_plain(io_bad), lib=_matrix_of(x))
+    if _plain(alone[0]) == here:
         return msg
     ctx.tally("pristine-process probe: failing call answers differently in a fresh process (state-dependent)")
     if _PROBE["explained"] >= 4:
@@ -729,14 +753,28 @@ def _refine(ctx, x, io_bad, msg):
             break
         if _plain(outs[1]) == _plain(alone[0]):
             continue
-        m2, _ = history._judge(ctx, _MATCH_RAW, x, outs[1])
+        m2 = _judge_observed(ctx, x, outs[1])
         if m2:
             _PROBE["explained"] += 1
-            ctx.fail("property", "match_history", inp=hist, impl={"steps": outs, "notes": []},
+            ctx.fail("property", "match_history", inp=hist,
+                     impl={"steps": [{kk: v for kk, v in o.items() if kk != "lib"} for o in outs], "notes": []},
                      detail="history step 1 (fresh -> fresh): " + m2 + f" [alone, in a fresh process, the same call returns "
                             f"{jkey(_plain(alone[0]))[:200]}]")
             return None
     return msg + " (state-dependent: a fresh process answers this call differently; no two-call history reproduces it)"
+
+
+def _judge_observed(ctx, x, obs):
+    """judge a call as observed in a fresh process (its output and the library's matrix there)"""
+    k = _core_key(x)
+    out = {kk: v for kk, v in obs.items() if kk != "lib"}
+    if isinstance(obs.get("lib"), dict) and "matrix" in obs["lib"]:
+        _LIB_OVERRIDE[k] = obs["lib"]
+    try:
+        m2, _ = history._judge(ctx, _MATCH_RAW, x, out)
+    finally:
+        _LIB_OVERRIDE.pop(k, None)
+    return m2
 
 
 def _holds_match(ctx, inp, io):
@@ -750,31 +788,37 @@ def _holds_match(ctx, inp, io):
             alone = _fresh().run({"seq": [{"inp": inp}]})
             if alone is not None:
                 ctx.tally("pristine-process probe: same answer in a fresh process")
-                if _plain(alone[0]) != _plain(io):
+                if _plain(alone[0]) != dict(_plain(io), lib=_matrix_of(inp)):
                     ctx.tally("pristine-process probe: same answer in a fresh process", -1)
-                    msg = ("the answer to this call depends on the calls made earlier in this process: a fresh process "
-                           f"returns {jkey(_plain(alone[0]))[:300]}")
+                    msg = ("the answer to this call (or the library's affinity matrix for it) depends on the calls made "
+                           f"earlier in this process: a fresh process gives {jkey(_plain(alone[0]))[:300]}")
     if msg is not None:
         msg = _refine(ctx, inp, io, msg)
     _RING.append(inp)
     return msg
 
 
-def _holds_history(raw):
+def _holds_history(raw, opname):
     def holds(ctx, h, io):
         msg = raw(ctx, h, io)
         if msg is None or _CTX is None:
             return msg
         F = _fresh()
-        again = F.run(h, op="match_history")
-        if again is None or _plain(again) == _plain(io):
-            return msg                      # reproduces on its own (or the probe is unavailable)
-        m2 = raw(ctx, h, again)
+        again = F.run(h, op=opname)
+        if again is None:
+            return msg                      # the probe is unavailable
+        libs, again = again.get("libs", {}), again.get("out", {})
+        _LIB_OVERRIDE.update(libs)
+        try:
+            m2 = raw(ctx, h, again)
+        finally:
+            for k in libs:
+                _LIB_OVERRIDE.pop(k, None)
         if m2:
             return m2 + " [as observed when the history runs in a fresh process]"
         # the history is fine on its own: what failed here was caused by calls made before it
         import re
-        k = re.match(r"history step (\d+)", msg)
+        k = re.match(r"(?:history step|call) (\d+)", msg)
         if k and int(k.group(1)) < len(io.get("steps", [])):
             k = int(k.group(1))
             return _refine(ctx, h["seq"][k]["inp"], io["steps"][k], msg)
@@ -937,7 +981,7 @@ def _shift_geom(g, d):
 def _impl_interleaved(h):
     """several calls whose generators are created first and consumed in turn (match_geometries is lazy): nothing
     one call keeps between its yields may be touched by another"""
-    live = [_live_args(inp) for inp in h["seq"]]
+    live = [_live_args(st["inp"]) for st in h["seq"]]
     gens = [iter(_invoke(a)) for a in live]
     outs = [[] for _ in gens]
     done = [False] * len(gens)
@@ -955,8 +999,8 @@ def _impl_interleaved(h):
 def _holds_interleaved(ctx, h, io):
     if "raise" in io:
         return f"the interleaved calls raised {io['raise']}"
-    for k, (inp, out) in enumerate(zip(h["seq"], io["steps"])):
-        msg, _ = history._judge(ctx, _MATCH_RAW, inp, out)
+    for k, (st, out) in enumerate(zip(h["seq"], io["steps"])):
+        msg, _ = history._judge(ctx, _MATCH_RAW, st["inp"], out)
         if msg:
             return f"call {k} of {len(h['seq'])} consumed in turn: {msg}"
     return None
@@ -967,8 +1011,9 @@ _MATCH_RAW = Op("match", _impl_match, to_model=_geoms_args, model_op="match_geom
                 holds=_judge_match, determined=False, nontrivial=_nontrivial, mode="exact")
 OPS["match_history"] = history.history_op("match_history", _MATCH_RAW, _h_build, _h_call, _h_canon,
                                           snapshot=_h_snapshot, modify=_h_modify, poison=_h_poison)
-OPS["match_history"].holds = _holds_history(OPS["match_history"].holds)
-OPS["match_interleaved"] = Op("match_interleaved", _impl_interleaved, holds=_holds_interleaved,
+OPS["match_history"].holds = _holds_history(OPS["match_history"].holds, "match_history")
+OPS["match_interleaved"] = Op("match_interleaved", _impl_interleaved,
+                              holds=_holds_history(_holds_interleaved, "match_interleaved"),
                               compare=lambda inp, io, mo: None, determined=True, mode="exact", no_model=True,
                               nontrivial=lambda inp, out: isinstance(out, dict) and "steps" in out)
 
@@ -1604,8 +1649,8 @@ def _stage_histories(ctx):
     for _ in range(ctx.budget(50, 400)):
         x = ctx.rng.choice(base)
         ys = _h_variants(x, ctx.rng)
-        inter.append({"seq": [x] + [ctx.rng.choice(ys) if ctx.rng.random() < 0.7 else ctx.rng.choice(base)
-                                    for _ in range(ctx.rng.randint(1, 2))]})
+        inter.append({"seq": [{"inp": x}] + [{"inp": ctx.rng.choice(ys) if ctx.rng.random() < 0.7 else ctx.rng.choice(base)}
+                                             for _ in range(ctx.rng.randint(1, 2))]})
     ctx.run_cases(OPS["match_interleaved"], inter)
 
 
